@@ -956,4 +956,4 @@ def run(ctx):
             part_valgrind(ctx, exe, vg[:24])
     finally:
         shutil.rmtree(base, ignore_errors=True)
-        shutil.rmtree(os.path.join(common.CACHE, "box"), ignore_errors=True)
+        shutil.rmtree(clibox.BOXDIR, ignore_errors=True)
